@@ -104,6 +104,9 @@ def guarded_assignments(fn):
 
 
 def check(run):
+    # a copied block applies the hints its preamble names: parameters and the preamble (which carries their index) travel together
+    from . import C19
+    C19.check_block_assignment(run, "R04.6", only=("m_block_parameters", "m_block_preamble"))
     facts = run.facts
     eps = entry_points(facts, "R04.1")
     adders, getters, tabs = tables.adders_getters(facts)
